@@ -5,6 +5,16 @@ NOTES = ("Every check runs: translator -> lake build of the property's theorem m
          "the hook can record the value actually returned (no line is deleted, behaviour is unchanged).")
 NOT_YET = {}
 CLAIMS = {
+    "C18": {
+        "text": "PARTIAL (regex oracle). Machine-checked Lean theorems encode_never_panics and decode_never_panics: on every well-formed "
+                "tokenizer, every valid UTF-8 text / every id sequence and sane external libraries (ExtSane) the model pipeline never "
+                "panics and never slices off a character boundary. Whole pipeline run on generated well-formed definitions and all "
+                "shipped models with overflow checks on, incl. adversarial texts up to 256 KiB.",
+        "design_ref": "DESIGN.md §6 C18",
+        "note": "Partial: totality of fancy-regex (backtrack limit) and of the Unicode libraries is assumed; process aborts are detected only "
+                "as a dying generator; memory safety of the three unsafe sites beyond the index/UTF-8 facts proved is not modelled.",
+        "technique": "Lean 4 proof over executable model + differential correspondence with the Rust implementation",
+    },
     "C03": {
         "text": "Machine-checked Lean theorems for every vocabulary, rank function (u32), piece, unit list and scratch-buffer prefix: "
                 "linear cached-rank loop = naive canonical merge (linear_eq_spec_partial), heap loop = the same (heap_eq_spec_partial), "
@@ -54,6 +64,15 @@ CLAIMS = {
         "design_ref": "DESIGN.md §6 C10",
         "note": "Trusted: Lean kernel + {propext, Classical.choice, Quot.sound}; regex and Unicode-script results are oracles (assumed "
                 "MatchesSane, validated at run time); character alignment of regex matches is inherited from the regex engine, not proved.",
+        "technique": "Lean 4 proof over executable model + differential correspondence with the Rust implementation",
+    },
+    "C01": {
+        "text": "Machine-checked Lean theorems: the whitespace-marker normalizations are inverted by their decode clean-up for every text "
+                "without the marker; for byte-complete byte-level BPE decoding the encoding of any part list returns exactly the parts' texts "
+                "(no fallback arm reachable); the second pass preserves text under tiling splits. End-to-end round trip on generated and "
+                "15 shipped byte-complete tokenizers is tied by RT runs with a round-trip verdict.",
+        "design_ref": "DESIGN.md §6 C01",
+        "note": "Trusted: Lean kernel + 3 standard axioms; NFC for NeoX/MPT/ModernBERT and all regexes are oracles (statement modulo NFC).",
         "technique": "Lean 4 proof over executable model + differential correspondence with the Rust implementation",
     },
     "C02": {
